@@ -1697,9 +1697,16 @@ impl World {
         }
         if let Some(limit) = interrupt {
             let before = self.dir_snapshot();
-            let exe = match std::env::current_exe() {
-                Ok(e) => e,
-                Err(e) => return format!("err:current_exe:{e}"),
+            // /proc/self/exe stays valid when the binary file is replaced by a rebuild while this process runs
+            // (current_exe() then names a path that no longer exists: a thorough-tier run reported
+            // `err:spawn:No such file or directory` on the unchanged tree while another build was going on)
+            let exe = if std::path::Path::new("/proc/self/exe").exists() {
+                std::path::PathBuf::from("/proc/self/exe")
+            } else {
+                match std::env::current_exe() {
+                    Ok(e) => e,
+                    Err(e) => return format!("err:current_exe:{e}"),
+                }
             };
             let mut cmd = std::process::Command::new(exe);
             cmd.arg("--start-child").arg(self.root.path()).arg(&idtext);
